@@ -1716,6 +1716,18 @@ func (p *Posix) CompleteMultipartUpload(ctx context.Context, input *s3.CompleteM
 	if err != nil && !errors.Is(err, meta.ErrNoSuchKey) {
 		return nil, fmt.Errorf("get object retention: %w", err)
 	}
+	if errors.Is(err, meta.ErrNoSuchKey) {
+		// no retention requested with the upload: stamp the bucket default rule
+		if mode, until, ok := p.defaultRetention(ctx, bucket); ok {
+			ret, err = json.Marshal(types.ObjectLockRetention{
+				Mode:            types.ObjectLockRetentionMode(mode),
+				RetainUntilDate: &until,
+			})
+			if err != nil {
+				return nil, fmt.Errorf("parse object lock retention: %w", err)
+			}
+		}
+	}
 	if err == nil {
 		err := p.meta.StoreAttribute(f.File(), bucket, object, objectRetentionKey, ret)
 		if err != nil {
@@ -3008,6 +3020,17 @@ func (p *Posix) PutObject(ctx context.Context, po s3response.PutObjectInput) (s3
 		err = p.meta.StoreAttribute(f.File(), *po.Bucket, *po.Key, objectLegalHoldKey, []byte{1})
 		if err != nil {
 			return s3response.PutObjectOutput{}, fmt.Errorf("set object legal hold: %w", err)
+		}
+	}
+
+	// an object written without explicit retention (PutObject, and CopyObject
+	// which ends up here) receives the bucket default retention, counted from
+	// now and stored on the object itself: later changes of the bucket rule
+	// must not weaken the protection of objects that already exist
+	if po.ObjectLockMode == "" {
+		if mode, until, ok := p.defaultRetention(ctx, *po.Bucket); ok {
+			po.ObjectLockMode = mode
+			po.ObjectLockRetainUntilDate = &until
 		}
 	}
 
@@ -4668,6 +4691,27 @@ func (p *Posix) GetBucketPolicy(ctx context.Context, bucket string) ([]byte, err
 
 func (p *Posix) DeleteBucketPolicy(ctx context.Context, bucket string) error {
 	return p.PutBucketPolicy(ctx, bucket, nil)
+}
+
+// defaultRetention returns the retention a new object receives from the
+// default rule of the bucket lock configuration (ok=false: no rule applies).
+func (p *Posix) defaultRetention(ctx context.Context, bucket string) (mode types.ObjectLockMode, until time.Time, ok bool) {
+	raw, err := p.GetObjectLockConfiguration(ctx, bucket)
+	if err != nil {
+		return "", time.Time{}, false
+	}
+	var cfg auth.BucketLockConfig
+	if err := json.Unmarshal(raw, &cfg); err != nil || !cfg.Enabled || cfg.DefaultRetention == nil {
+		return "", time.Time{}, false
+	}
+	until = time.Now()
+	if cfg.DefaultRetention.Days != nil {
+		until = until.AddDate(0, 0, int(*cfg.DefaultRetention.Days))
+	}
+	if cfg.DefaultRetention.Years != nil {
+		until = until.AddDate(int(*cfg.DefaultRetention.Years), 0, 0)
+	}
+	return types.ObjectLockMode(cfg.DefaultRetention.Mode), until, true
 }
 
 func (p *Posix) isBucketObjectLockEnabled(bucket string) error {
